@@ -24,13 +24,14 @@ CHECKS = {
         category='proof',
         text='Coq theorems: the evaluator model returns v iff v is the in-range ideal value (every evaluated constant, variable and '
              'intermediate in [0,M), no zero divisor, lazy && || ?:), fails exactly otherwise, and that value equals C unsigned-long '
-             'arithmetic mod 2^W for every W with M <= 2^W; the parser model only accepts sentences of the stratified plural.y grammar and '
-             'builds the tree that grammar assigns; with the generated digit limit no ValueError. Completeness of acceptance is not a theorem: '
-             'it is decided by exhaustive three-way comparison (model / real parser / independent plural.y reference) on all token sequences '
-             'of length <= 4 (quick) / 5 (thorough).',
-        design_ref='DESIGN.md 5 / C04',
-        technique='Coq proof (induction on expr / on parser fuel) + extracted-model correspondence + independent reference parser/evaluator',
-        note=NOTE_COMMON + ' rply is modelled, not verified. Known finding D12 (RecursionError on expressions nested >= 300 deep).'),
+             'arithmetic mod 2^W for every W with M <= 2^W; the lexer model reads exactly the token sequence of plural.y\'s yylex; the parser model is '
+             'sound AND complete for the stratified plural.y grammar (accepts iff a derivation exists, builds the unique tree, rejects with the own '
+             'syntax error exactly otherwise), its fuel never runs out and it raises nothing foreign; hence a string is accepted iff it is in the '
+             'plural language (terminator characters rejected). Tied to lib/intexpr.py by three-way comparison (model / real rply parser / independent '
+             'plural.y reference) on all token sequences of length <= 4 (quick) / 5 (thorough) plus random and deep families.',
+        design_ref='DESIGN.md 5 / C04; notes/C04.md',
+        technique='Coq proof (induction on expr; mutual operational grammar + fuel measure for the parser; case analysis over code points for the lexer) + extracted-model correspondence + independent reference parser/evaluator',
+        note=NOTE_COMMON + ' rply\'s LALR table construction is modelled, not verified; NUMBER is unbounded in the spec (C wrap of constants >= 2^32 is outside InRange anyway). Known finding D12 (RecursionError on expressions nested >= 300 deep).'),
     'C06': dict(
         category='proof',
         text='Coq theorem by structural induction over the expression grammar, for every modulus M: a returned (O, P) satisfies 1 <= P, 0 <= O and '
@@ -44,12 +45,12 @@ CHECKS = {
         text='Coq theorems about the model of parse_plural_forms/check_plurals: every "f(x) != k" claim is true for all n in [0,2^32) '
              '(composition of the C05 and C06 soundness theorems with the gap scan); the window diagnostics are exactly the least n < 200 that '
              'fails or leaves the range, with its true outcome; syntax-error iff the value is rejected; junk tags carry exactly the surrounding text; '
-             'leftmost match; nplurals verdict iff; a total, in-range, onto declaration is silent; and, over the registry regenerated from data/languages '
+             'leftmost match and no match iff no declaration anywhere; nplurals verdict iff; no foreign exception for any input (unconditional); a total, in-range, onto declaration is silent; and, over the registry regenerated from data/languages '
              'on every run, each own declaration is silent/usual and total on the window (vm_compute). Tied to the code by in-process correspondence '
              'of Checker.check_plurals and an independent truthfulness oracle.',
         design_ref='DESIGN.md 5 / C07',
         technique='Coq proof (composition of C05/C06 theorems, list induction, vm_compute over the regenerated registry) + correspondence + truthfulness oracle',
-        note=NOTE_COMMON + ' Completeness of the regex search (no match => no declaration anywhere) is covered by correspondence only. D1 fixed by commit 6bd9347.'),
+        note=NOTE_COMMON + ' The regex engine itself is modelled by the search function (tied by correspondence). D1 fixed by commit 6bd9347.'),
     'C02': dict(
         category='proof',
         text='Coq theorems: for EVERY string / byte string the escaped form consists of printable characters only (so no newline, ESC, C0/C1, DEL, '
@@ -186,15 +187,17 @@ CHECKS = {
         technique='Coq proof (per-directive agreement lemma between two scanners) + two extracted-model correspondences + live-interpreter oracle',
         note=NOTE_COMMON + ' The CPython-side model is hand-written from knowledge of unicodeobject.c and validated against the live interpreter, not derived from its source.'),
     'C13': dict(
-        category='other',
-        text='Partial. perl-brace: complete Coq theorems (accept iff every "{" opens "{identifier}", reported names = identifiers, only own errors, the model scanner inspects at most 2|s|+1 '
+        category='proof',
+        text='perl-brace: complete Coq theorems (accept iff every "{" opens "{identifier}", reported names = identifiers, only own errors, the model scanner inspects at most 2|s|+1 '
              'characters). python-brace: proved that acceptance implies Python\'s parser accepts and that a string Python rejects is rejected (outside the known finding D25, with refutation '
-             'witnesses), only own errors (unguarded since the D3 fix), and soundness of the type set computed for a format spec against a model of CPython format() (outside D24). Not proved: '
-             'the whole-string bookkeeping of the flat-fields formatting theorem. Linear time of the real regex is MEASURED on doubling families (it is a property of the re engine, no Gallina '
-             'model exhibits it).',
+             'witnesses), only own errors (unguarded since the D3 fix), soundness of the type set computed for a format spec against a model of CPython format() (outside D24), and the flat-fields '
+             'theorem: an accepted string whose fields are flat (no nested field, no attribute/index, spec outside D24) formats successfully under the CPython model with any arguments matching '
+             'the reported argument map and type sets (automatic/manual numbering and index-vs-keyword lookup included), also instantiated on the generated Unicode tables. The flat/guard domain '
+             'is recomputed by the extracted model and compared with the live parser on every run; the CPython-side model is compared with string.Formatter().parse and str.format. Time on the real '
+             're engine is MEASURED on doubling families (a property of the engine no Gallina model exhibits); the model scanners have proved linear step bounds.',
         design_ref='DESIGN.md 5 / C13; notes/C13.md',
-        technique='Coq proof (scanner models vs declarative specs / CPython markup model) + correspondences (model vs parser, spec vs string.Formatter / str.format) + measured time growth',
-        note=NOTE_COMMON + ' Known findings D24 (pinned by tests), D25. D3, D4 fixed (01ae369, 89b000c).'),
+        technique='Coq proof (scanner models vs declarative specs / CPython markup + format model) + correspondences (model vs parser, spec vs string.Formatter / str.format, domain op) + measured time growth',
+        note=NOTE_COMMON + ' The CPython-side model is hand-written and validated against the live interpreter. Known findings D24 (pinned by tests), D25. D3, D4 fixed (01ae369, 89b000c).'),
     'C01': dict(
         category='other',
         text='Partial. Proved: the conjunction of the component no-crash / totality theorems (plural evaluator and analyses, MO loader through Checker.check\'s handlers, C format parser, '
